@@ -128,6 +128,11 @@ func (fv *FV) stmt(e *Env, s ast.Stmt, label string) {
 		fv.branch(e, s)
 	case *ast.DeferStmt:
 		fv.defers = append(fv.defers, deferred{call: s.Call, pc: e.pc})
+		if lit, ok := ast.Unparen(s.Call.Fun).(*ast.FuncLit); ok && fv.spec == nil && fv.u != nil && fv.u.C != nil && fv.inlineDepth == 0 && fv.u.C.ClosureChecked[funcLitOrd(fv.u.Decl, lit)] {
+			// a deferred literal also runs when the function panics, in a state the normal
+			// exits do not cover: `closure N checked/ensures` executes its body on its own
+			fv.probeClosureBody(e, lit)
+		}
 		// arguments are evaluated now; we approximate by evaluating at exit
 	case *ast.GoStmt:
 		fv.note("go statement: spawned call abstracted, heap havocked")
@@ -259,8 +264,37 @@ func (fv *FV) assign(e *Env, s *ast.AssignStmt) {
 				}
 			}
 		}
+		fv.checkPreAssign(e, l)
 		lv := fv.lvalue(e, l)
 		fv.storeLV(e, lv, vals[i])
+	}
+}
+
+// checkPreAssign generates the obligations of `preassign T.f :: P` clauses for
+// an assignment whose target is field f of a T.
+func (fv *FV) checkPreAssign(e *Env, l ast.Expr) {
+	if fv.spec != nil || fv.u == nil || fv.u.C == nil || len(fv.u.C.PreAssigns) == 0 || e.dead {
+		return
+	}
+	se, ok := ast.Unparen(l).(*ast.SelectorExpr)
+	if !ok {
+		return
+	}
+	sel, ok := fv.info.Selections[se]
+	if !ok || sel.Kind() != types.FieldVal {
+		return
+	}
+	n, ok := types.Unalias(deref(sel.Recv())).(*types.Named)
+	if !ok {
+		return
+	}
+	for _, pa := range fv.u.C.PreAssigns {
+		if pa.Field != se.Sel.Name || pa.Type != n.Obj().Name() {
+			continue
+		}
+		t := fv.specTermO(e, pa.Cl, &specCtx{old: fv.entry, preAlloc: fv.entry.alloc, lenient: true})
+		fv.obligeNamed(e, "preassign", fmt.Sprintf("preassign:%s#%d", pa.Cl.Label, fv.siteOrd("preassign"+pa.Cl.Label)), l,
+			fmt.Sprintf("field %s.%s is assigned only when %q", pa.Type, pa.Field, pa.Cl.Text), t)
 	}
 }
 
